@@ -228,7 +228,7 @@ def check(ctx):
     n = 46 if quick else 361
     snrs = [-30.0 + 90.0 * i / (n - 1) for i in range(n)] + [ctx.rng.uniform(-30, 60) for _ in range(10)]
     lengths = [1, 2, 10, 1000] if quick else [1, 2, 3, 10, 100, 1000, 10000]
-    core.prove(ctx, MODULE, generated=[], drivers=[DRIVER], scratch=ctx.scratch)
+    core.prove(ctx, MODULE, generated=['C16Formulas'], drivers=[DRIVER], scratch=ctx.scratch)
     ctx.required_branches = ['curve:BPSK', 'curve:PSK', 'curve:QAM', 'curve:QPSK']
     try:
         correspondence(ctx, psk_max, qam_max, snrs, lengths)
